@@ -231,3 +231,19 @@ Theorem C13_par1_vslot_spec : forall md5 fs ix sh k,
      exists b, fs_lookup fs (volume_path ix (N.of_nat k)) = Some b /\ not_member md5 sh (N.of_nat k) b).
 Proof. exact vslot_spec. Qed.
 Print Assumptions C13_par1_vslot_spec.
+
+(* PAR1 Repair writes only hash-verified content and lists what it wrote: the state after is the state before with a list
+   of writes applied, each to the path of a saved entry with a bare name, carrying that entry's recorded MD5, 16k-MD5 and
+   length; the repaired list is exactly the list of written paths (every archive state) *)
+Theorem C13_par1_repair_writes : forall md5 ix dbl fs r rp st',
+  Par1.par1_repair md5 ix dbl (io_init fs []) = ((r, rp), st') ->
+  (io_fs st' = fs /\ rp = []) \/
+  exists s st1 ws,
+    Par1.p1_load md5 ix (io_init fs []) = (Ok s, st1) /\
+    io_fs st' = apply_writes ws fs /\ rp = map fst ws /\
+    Forall (fun w => exists e, In e (Par1.s_saved s) /\ base (Par1.e_name e) = Par1.e_name e /\
+                       fst w = join2 (dir ix) (Par1.e_name e) /\
+                       md5 (snd w) = Par1.e_hash e /\ Par1.hash16k md5 (snd w) = Par1.e_h16 e /\
+                       N.of_nat (length (snd w)) = Par1.e_len e) ws.
+Proof. exact Par1Facts.par1_repair_writes. Qed.
+Print Assumptions C13_par1_repair_writes.
